@@ -28,6 +28,10 @@ struct Slot {
 
 static std::string mkname(const char *pfx, int idx, int64_t len, int64_t seed)
 {
+    // a third of the names come from a family in which the name of object i is a proper prefix of the name of object
+    // i+1 ("vgn", "vgna", "vgnab", ...): a lookup that compares a prefix only takes one object for another
+    if (seed % 3 == 0 && len <= 64)
+        return strf("%sn", pfx) + std::string("abcdefghijklmnopqrstuvwxyz").substr(0, (size_t)(idx % 26));
     std::string s = strf("%s%d_", pfx, idx);
     for (int64_t i = (int64_t)s.size(); i < len; i++)
         s += (char)('a' + (seed + i * 7) % 26);
